@@ -223,11 +223,12 @@ const evNMutex = 3
 const evFuel = 4000
 
 type evCase struct {
-	src   string // program text (top-level forms)
-	forms []*sx
-	cell  string // sweep cell name ("" for composite cases)
-	exit  string // sweep exit kind (C07)
-	kind  string // generator family, for the histogram
+	src    string // program text (top-level forms)
+	forms  []*sx
+	cell   string // sweep cell name ("" for composite cases)
+	exit   string // sweep exit kind (C07)
+	kind   string // generator family, for the histogram
+	prefix string // the substring all generated identifiers of this case contain ("" for sweep cells)
 }
 
 func evNewCase(src, cell, exit, kind string) evCase {
@@ -449,10 +450,12 @@ func evRunImpl(cs evCase) evObs {
 // comparison
 
 // evAspect classifies a disagreement by a fixed function of (observed, expected):
-//   o: the implementation's outcome kind (val, err:<class>, fault, timeout)
-//   v: same | diff          printed primary value (or condition class) against the model's
-//   t: same | longer | shorter | other     implementation trace relative to the model's
-//   l: same | held | diff   final lock states
+//
+//	o: the implementation's outcome kind (val, err:<class>, fault, timeout)
+//	v: same | diff          printed primary value (or condition class) against the model's
+//	t: same | longer | shorter | other     implementation trace relative to the model's
+//	l: same | held | diff   final lock states
+//
 // Empty string = agreement.
 func evAspect(impl, model evObs) string {
 	if impl.kind == model.kind && impl.value == model.value && impl.trace == model.trace && impl.locks == model.locks {
